@@ -146,7 +146,7 @@ Proof. reflexivity. Qed.
 Lemma run_msg_wasm c w snd ctr cs s :
   run_msg c w (Wasm snd ctr cs) s =
   if w_reflects w ctr snd && negb (Nat.eqb (List.length cs) 0)
-  then seq_opt (run_msg c w) (fun _ c0 => basic_msg c0 && Nat.eqb (signer_msg c0) ctr && wasm_admits c c0) cs s
+  then seq_opt (run_msg c w) (fun _ c0 => basic_msg c0 && wasm_admits c ctr c0) cs s
   else None.
 Proof. reflexivity. Qed.
 
@@ -157,10 +157,12 @@ Proof. reflexivity. Qed.
 
 Lemma run_msg_ica c w r a cs s :
   run_msg c w (Ica r a cs) s =
-  match seq_opt (run_msg c w) (fun _ c0 => w_ica_allow w (kind_of leaf leaf_kind c0) && Nat.eqb (signer_msg c0) a) cs s with
-  | Some s' => Some s'
-  | None => Some s
-  end.
+  if w_ica_acct w a then
+    match seq_opt (run_msg c w) (fun _ c0 => w_ica_allow w (kind_of leaf leaf_kind c0) && Nat.eqb (signer_msg c0) a) cs s with
+    | Some s' => Some s'
+    | None => Some s
+    end
+  else Some s.
 Proof. reflexivity. Qed.
 
 (** ---------------------------------------------------------------- the tree lemma *)
@@ -184,10 +186,12 @@ Proof.
     rewrite Forall_forall in IH.
     eapply seq_opt_inv_weak; [|exact Hs|exact Hrun].
     intros c0 Hin s1 s2 Hs1 Hok Hr. eapply IH; eauto.
-    apply andb_true_iff in Hok as [_ Hadm]. unfold wasm_admits in Hadm. rewrite Hwasm in Hadm. simpl in Hadm.
+    apply andb_true_iff in Hok as [_ Hadm]. unfold wasm_admits in Hadm. apply andb_true_iff in Hadm as [_ Hadm].
+    rewrite Hwasm in Hadm. simpl in Hadm.
     destruct (dec_rejects c 0 c0); [discriminate|reflexivity].
   - rewrite run_msg_gov in Hrun. match type of Hrun with (if ?b then _ else _) = _ => destruct b end; [|discriminate]. inversion Hrun. subst. exact Hs.
   - rewrite run_msg_ica in Hrun.
+    destruct (w_ica_acct w a); [|inversion Hrun; subst; exact Hs].
     match type of Hrun with match ?q with _ => _ end = _ => destruct q as [s2|] eqn:E end; inversion Hrun; subst; [|exact Hs].
     eapply seq_opt_inv_weak; [|exact Hs|exact E].
     intros c0 Hin s1 s3 Hs1 Hok Hr.
@@ -286,11 +290,12 @@ Lemma breaks_cap_not_ok s : breaks_cap s -> ~ cap_ok s.
 Proof. intros (a & v & Hf & Hlt) H. specialize (H a v Hf). lia. Qed.
 
 Definition world_plain : world :=
-  {| w_reflects := fun ctr snd => Nat.eqb ctr 10 && Nat.eqb snd 0; w_gov := 11%nat; w_ica_allow := fun _ => false |}.
+  {| w_reflects := fun ctr snd => Nat.eqb ctr 10 && Nat.eqb snd 0; w_gov := 11%nat;
+     w_ica_acct := fun _ => false; w_ica_allow := fun _ => false |}.
 
 (** the ICA allow-list installed by upgrade v1.3.0 admits MsgExec *)
 Definition world_ica_exec : world :=
-  {| w_reflects := fun _ _ => false; w_gov := 11%nat;
+  {| w_reflects := fun _ _ => false; w_gov := 11%nat; w_ica_acct := fun a => Nat.eqb a 7;
      w_ica_allow := fun k => match k with MKExec => true | _ => false end |}.
 
 Definition r90 : Z := 900000000000000000.
